@@ -671,8 +671,11 @@ fn main() {
         units!(&mut ctx, &mut tot, &mut unit, false, 0, [Tr<0>], [31, 32, 33]);
         units!(&mut ctx, &mut tot, &mut unit, true, 0, [Tr<0>, TrZ, u32], [64, 100]);
         units!(&mut ctx, &mut tot, &mut unit, false, 4, [u32], [0, 1, 2, 3, 4]);
-        // complete position graphs of larger arrays (argument lattice)
-        units!(&mut ctx, &mut tot, &mut unit, true, 0, [Tr<0>, TrZ], [255, 256, 257]);
+        // complete position graphs of larger arrays (argument lattice): optimised build only (about 100 s per unit there,
+        // the better part of an hour without optimisation)
+        if !cfg!(debug_assertions) || ctx.only.is_some() {
+            units!(&mut ctx, &mut tot, &mut unit, true, 0, [Tr<0>, TrZ], [255, 256, 257]);
+        }
         // (K = 1024 would be 17 M transitions of 1024-element replays, about 1.5 h on one core: not run)
     }
     let extra = json!({
